@@ -5,7 +5,7 @@
    (2) py_float (Model/Num.v) succeeds on every text of that shape.  The proof is tied to the regex value: if parser.py's
    _R_EXPR_NUMBER changes shape, step (1) breaks (intended: it is a proof obligation about the source). *)
 From Coq Require Import Lia SpecFloat.
-From BS Require Import Model.Base Model.Regex Model.Num Model.ExprParser Gen.Unicode Gen.Regexes Proofs.RegexFacts.
+From BS Require Import Model.Base Model.Regex Model.Num Model.ExprParser Gen.Unicode Gen.Regexes Proofs.RegexFacts Proofs.NumSpace.
 
 (* ================= A. the character classes ================= *)
 Definition ranges_disjoint (l1 l2 : list (N * N)) : bool :=
@@ -185,7 +185,7 @@ Qed.
 
 Theorem py_float_num_shape g : num_shape g -> py_float g <> None.
 Proof.
-  intros G. unfold py_float. cbv zeta. rewrite (strip_nonspace g (num_shape_nonspace g G)).
+  intros G. unfold py_float. cbv zeta. rewrite (NumSpace.fstrip_id g (num_shape_nonspace g G)).
   destruct G as (sg & b & -> & S & B).
   destruct S as [->|[->| ->]]; cbn [app]; try (apply py_float_body_ok; exact B).
   (* no sign: the text starts with a digit, which is neither '-' nor '+' *)
